@@ -173,8 +173,16 @@ def run_handler(facts, roles, hb, live, dead, docs, plan, rel, source=0, with_ct
         # version-vector oracles of the set
         def both(w, interp, name, args, t, b):
             r = orswot_abs.versions_oracle(interp, name, args, t, b)
+            if r is not None:
+                # the source id the set's per-source register is consulted / advanced under
+                for x in args[1:]:
+                    xv = interp.deref_all(x)
+                    if xv is not None and xv[0] == 'int' and xv[1] is not None and b.local_ty(t['dest']['l']) == 'bool' and any(
+                            (interp.deref_all(y) or ('',))[0] == 'ts' for y in args[1:]):
+                        w.trace.append(('versions-source', last_seg(name), xv[1]))
             return r
         world.hooks.append(both)
+        world.trace.append(('msg-source', source))
         upv = {}
         for i, ty in ups.items():
             if 'KeyspaceActor' in ty:
@@ -216,6 +224,10 @@ def result_is_ok(r):
     return r is not None and r[0] == 'adt' and r[1] == 'core::result::Result' and r[2] == 0
 
 
+# what storage can answer to a bulk call: the contract (BulkMutationError::successful_doc_ids) promises neither a prefix nor an order
+BULK_ANSWERS = ('ok', 'err-none', 'err-first', 'err-last', 'err-all-reversed')
+
+
 def check_handlers(ctx, facts, rule):
     try:
         roles = Roles(facts)
@@ -247,7 +259,7 @@ def check_handlers(ctx, facts, rule):
                 if p2 != 'none':
                     live['k2'] = 'e2'
                     rel[('e2', 't2')] = '<' if p2 == 'older' else '>'
-                for ans in ('ok', 'err-none', 'err-first', 'err-last'):
+                for ans in BULK_ANSWERS:
                     def plan(m, keys, ans=ans):
                         if ans == 'ok':
                             return ('ok',)
@@ -255,6 +267,8 @@ def check_handlers(ctx, facts, rule):
                             return ('err', [])
                         if ans == 'err-first':
                             return ('err', keys[:1])
+                        if ans == 'err-all-reversed':
+                            return ('err', list(reversed(keys)))
                         return ('err', keys[-1:])
                     res = []
                     for source, with_ctx in ((0, False), (1, True)):
@@ -275,6 +289,15 @@ def check_handlers(ctx, facts, rule):
         b = hbs[kind][0]
         return '%s:%s' % (b.file, b.line)
     # ---- verdicts ----------------------------------------------------------------------------------------------------
+    src_bad = {}
+
+    def wrong_source(trace):
+        want = [e[1] for e in trace if e[0] == 'msg-source']
+        used = [e for e in trace if e[0] == 'versions-source']
+        for e in used:
+            if want and e[2] != want[0]:
+                return (want[0], e[1], e[2])
+        return None
     for kind, op in (('set', 'insert'), ('del', 'delete')):
         for pre in PRE:
             for ans in ('ok', 'err'):
@@ -289,6 +312,9 @@ def check_handlers(ctx, facts, rule):
                     seen += 1
                     trace, lv, dd, r = res
                     writes = [e for e in trace if e[0] == 'storage']
+                    wrong_src = wrong_source(trace)
+                    if wrong_src:
+                        src_bad.setdefault(kind, wrong_src)
                     got_state = (norm(lv.get('k'), pre), norm(dd.get('k'), pre))
                     will = cls == 'open' and (pre[0] == 'none' or (pre[1] or pre[2]) == '<')
                     same = unchanged(pre)[:2]
@@ -316,7 +342,7 @@ def check_handlers(ctx, facts, rule):
                            bad[0][2][0] if bad else '?', bad[0][2][1] if bad else '?', 'Ok' if bad and bad[0][2][2] else 'Err'))
     for kind, op in (('multi_set', 'insert'), ('multi_del', 'delete')):
         for p1, p2 in [('none', 'none'), ('older', 'none'), ('newer', 'none'), ('none', 'newer'), ('older', 'older')]:
-            for ans in ('ok', 'err-none', 'err-first', 'err-last'):
+            for ans in BULK_ANSWERS:
                 bad = []
                 seen = 0
                 for log, res in out[(kind, (p1, p2), ans)]:
@@ -328,6 +354,9 @@ def check_handlers(ctx, facts, rule):
                     seen += 1
                     trace, lv, dd, r = res
                     writes = [e for e in trace if e[0] == 'storage']
+                    wrong_src = wrong_source(trace)
+                    if wrong_src:
+                        src_bad.setdefault(kind, wrong_src)
                     # the cut-off gate is consulted once per document the set does not already hold (in message order)
                     befores = [v for lab, v in log if pred and lab.endswith('.' + pred)]
                     cut = {}
@@ -343,6 +372,8 @@ def check_handlers(ctx, facts, rule):
                         applied = []
                     elif ans == 'err-first':
                         applied = handed[:1]
+                    elif ans == 'err-all-reversed':
+                        applied = list(handed)
                     else:
                         applied = handed[-1:]
                     exp_state = {}
@@ -363,13 +394,20 @@ def check_handlers(ctx, facts, rule):
                     elif applied and ('change-stamp',) not in trace:
                         bad.append(((got[0], 'changed WITHOUT bumping the keyspace change stamp', got[2]), exp))
                 ok_ = seen > 0 and not bad
-                lab = '%s|first doc: set holds %s, second: %s|storage %s' % (kind, p1, p2, {'ok': 'succeeds', 'err-none': 'fails having written nothing', 'err-first': 'fails after the first handed document', 'err-last': 'fails having written only the last handed document'}[ans])
+                lab = '%s|first doc: set holds %s, second: %s|storage %s' % (kind, p1, p2, {'ok': 'succeeds', 'err-none': 'fails having written nothing', 'err-first': 'fails after the first handed document', 'err-last': 'fails having written only the last handed document',
+                                                                                          'err-all-reversed': 'fails having written every handed document, reported in reverse order'}[ans])
                 ctx.ob(rule, lab, ok_, site_of(kind),
                        'bulk %s: exactly the documents the set accepts are handed to storage and exactly the ones storage reports written become visible' % kind if ok_ else
                        'bulk %s (%s): storage is handed %s and the set ends as %s, returning %s; expected storage to be handed %s, the set to end as %s and %s — exactly the documents '
                        'storage reports as written must become visible in the set' % (
                            kind, lab.split('|', 1)[1], bad[0][0][0] if bad else '?', bad[0][0][1] if bad else '?', 'Ok' if bad and bad[0][0][2] else 'Err',
                            bad[0][1][0] if bad else '?', bad[0][1][1] if bad else '?', 'Ok' if bad and bad[0][1][2] else 'Err'))
+    for kind in ('set', 'del', 'multi_set', 'multi_del'):
+        w = src_bad.get(kind)
+        ctx.ob(rule, '%s|applied-under-the-message-source' % kind, w is None, site_of(kind),
+               'the set is updated under the source id the message carries' if w is None else
+               'a %s message from source %s is applied to the set under source %s (%s): the per-source register of ANOTHER source decides, so an operation that is new to '
+               'its own source is refused as stale (or a stale one accepted) — storage is written, the set is not' % (kind, w[0], w[2], w[1]))
     for ans in ('ok', 'err-none', 'err-all'):
         bad = []
         seen = 0
